@@ -769,6 +769,15 @@ func (vc *VC) evalCall(e *SExpr, env *Env) *Val {
 				vc.evalFail(env, "ptrtag needs a type")
 			}
 			return &Val{T: fmt.Sprintf("%d", vc.typeTag(types.NewPointer(tv.TypeV))), Ty: MathInt}
+		case "toptr":
+			// toptr(x, T): the reference x (an integer, e.g. from a generic
+			// ghost map) as a *T
+			x := vc.eval(args[0], env)
+			tv := vc.eval(args[1], env)
+			if !tv.IsType || tv.TypeV == nil {
+				vc.evalFail(env, "toptr needs a type")
+			}
+			return &Val{T: x.T, Ty: types.NewPointer(tv.TypeV)}
 		case "funcis":
 			// funcis(f, name): the function value f is known, at translation
 			// time, to be the named function (decided syntactically)
